@@ -501,7 +501,16 @@ def check_cmp(model, rep, sx: SX, tables):
                         # generic operands with (S - O)/F[a] = d; in the different-unit branch the right unit's factor differs from the
                         # left one (a comparison that forgets to convert the right operand then sees another difference)
                         fa = Fraction(2)
-                        return {'S': d * fa + Fraction(7), 'O': Fraction(7), f'F[{fam}:a]': fa, f'F[{fam}:b]': fa if same_unit else Fraction(3)}
+                        base = Fraction(10 ** 7)
+                        from sa.spec.si import SIGN as _SIGN
+                        if right in _SIGN:
+                            # the right operand must stay a valid value of its kind: it is held fixed, the left one carries the difference
+                            S_, O_ = base + d * fa, base
+                        else:
+                            # the left operand is held fixed and the right one moves - through negative values too, where a sign shortcut
+                            # of a sub-kind's own comparison (e.g. "an Angle is never below a negative position") would answer
+                            S_, O_ = Fraction(7), Fraction(7) - d * fa
+                        return {'S': S_, 'O': O_, f'F[{fam}:a]': fa, f'F[{fam}:b]': fa if same_unit else Fraction(3)}
                     want = exact_predicate(name, S - O) if same_unit else spec_predicate(name, (S - O) / Fa, T, ctx)
                     r_ok, r_why = _decide_by_points(ctx, paths, want, env_of, pts)
                     if r_ok is None:
